@@ -76,6 +76,8 @@ fn exec_e3(j: &J) -> Result<RunOut, String> {
             }
         }
     }
+    out.count("probe.replicas_with_negative_score", scores.iter().filter(|s| **s < 0.0 || (**s == 0.0 && s.is_sign_negative())).count() as u64);
+    out.count("probe.scenarios_mixing_negative_and_positive_scores", (scores.iter().any(|s| *s < 0.0) && scores.iter().any(|s| *s > 0.0)) as u64);
     let mut prev_best = f64::NEG_INFINITY;
     let mut tie_or_order_sensitive = false;
     for k in 1..=kmax {
@@ -421,7 +423,7 @@ impl Check for C10 {
         ]
     }
     fn expected_probes(&self) -> Vec<&'static str> {
-        vec!["probe.prefix_runs", "probe.executions_with_ge2_active_workers", "probe.reduction_tree_depth_ge2", "probe.cli_group/p1g1", "probe.cli_shape/trimer", "probe.cli_shape/polygon"]
+        vec!["probe.prefix_runs", "probe.scenarios_mixing_negative_and_positive_scores", "probe.executions_with_ge2_active_workers", "probe.reduction_tree_depth_ge2", "probe.cli_group/p1g1", "probe.cli_shape/trimer", "probe.cli_shape/polygon"]
     }
 }
 
